@@ -456,3 +456,59 @@ def named_engine():
 
 VERIFY_NAMED = [NamedAnalysis("export_op", data.Op, vsp.OpInput), NamedAnalysis("export_tran", data.Tran, vsp.TranInput,
                                                                                ("tstop", "tstep"))]
+
+
+def sim_add_obligations():
+    """Sim.add(*attrs): the loop body located in the current source, executed for one arbitrary attribute of every
+    attribute class: a valid attribute is appended at the END of sim.attrs (whatever is already there - equal-looking
+    attributes included), anything else is refused with TypeError."""
+    import ast
+    from pyvc import loader
+    from pyvc.engine import Frame
+    key = "hdl21.sim.data:Sim.add"
+    ext = loader.extract(key)
+    info = {"sha": ext.sha, "lines": ext.lines, "path": ext.path, "paths": 0, "scenarios": 0, "unsupported": []}
+    loops = [n for n in ast.walk(ext.node) if isinstance(n, ast.For)]
+    obs = []
+    if len(loops) != 1 or not isinstance(loops[0].target, ast.Name):
+        info["unsupported"].append("the attribute loop of Sim.add was not found")
+        return key, obs, info
+    loop = loops[0]
+    classes = [data.Options] + [c for c, _ in AN_KINDS.values()] + [c for c, _ in CTRL_KINDS.values() if isinstance(c, type)]
+    for cls in classes + [Signal]:
+        schema = dict(SCHEMA_EXTRA)
+        schema["attrs"] = "seq[ref]"
+        eng = mk_engine(schema_extra=schema, inline={"hdl21.sim.data:is_simattr", "hdl21.sim.data:is_analysis",
+                                                     "hdl21.sim.data:is_control"})
+        st = eng.new_state()
+        me = sym_ref(st, "self", (data.Sim,))
+        attr = sym_ref(st, "attr", (cls,))
+        st.locals = {"self": me, loop.target.id: attr, "attrs": (attr,)}
+        st0 = st.fork()
+        eng.frames.append(Frame(ext, ext.key))
+        eng.cuts = []
+        try:
+            outs = eng.exec_block(loop.body, st)
+        except Unsupported as e:
+            info["unsupported"].append(f"{cls.__name__}: {e}")
+            continue
+        finally:
+            eng.frames.pop()
+        info["scenarios"] += 1
+        for pi, (kind, s2, v) in enumerate(outs):
+            info["paths"] += 1
+            a0, a1 = st0.heap.get("attrs", me.z), s2.heap.get("attrs", me.z)
+            meta = {"trace": list(s2.trace), "havoc": list(s2.ghost.get("havoc", ()))}
+            if cls is Signal:
+                goal = z3.BoolVal(kind == "exc" and v.cls is TypeError)
+                obs.append(Obligation(f"{key}/not-an-attribute/p{pi}/rejects", "raises", list(s2.pc), goal, key,
+                                      "not-an-attribute", pi, meta))
+                continue
+            if kind == "exc":
+                obs.append(Obligation(f"{key}/{cls.__name__}/p{pi}/raises.{v.cls.__name__}", "raises", list(s2.pc),
+                                      z3.BoolVal(False), key, cls.__name__, pi, meta))
+                continue
+            goal = a1 == z3.Concat(a0, z3.Unit(attr.z))
+            obs.append(Obligation(f"{key}/{cls.__name__}/p{pi}/post.appended-at-the-end", "post", list(s2.pc), goal, key,
+                                  cls.__name__, pi, meta))
+    return key, obs, info
